@@ -35,7 +35,7 @@ func serveGroupRun(line string) (string, string) {
 		// the same with the response cache enabled: what a client gets back in its OPT record must
 		// not depend on who asked before
 		return serveRunCache("serve"+line[len("servecsc"):], dnsserver.CacheConfig{Enabled: true, LRUSize: 1024})
-	case "loc":
+	case "loc", "locq":
 		return locRun(f)
 	case "frame":
 		return frameRun(f)
@@ -463,6 +463,53 @@ func c03gen(g *gen, tier string, w *bufio.Writer) {
 			ls = append(ls, hexTok([]byte(l)))
 		}
 		fmt.Fprintf(w, "loc %s %s\n", strings.Join(ls, ";"), strings.Join(cl, ";"))
+		if i%3 == 0 {
+			// which map covers a name: exact maps cover their own name only, wildcard maps everything
+			// below theirs, the closest one wins. Each map sends every client to a location of its own.
+			cand := []struct{ owner, id, lo string }{
+				{"ex.com", "m1", ""}, {"*.ex.com", "m2", "bb"}, {"svc.ex.com", "m3", "cc"}, {"*.svc.ex.com", "m4", "dd"},
+				{"www.svc.ex.com", "m5", "ee"}, {"*.com", "m6", "ff"}, {"*.www.svc.ex.com", "m7", "gg"}, {"sv.ex.com", "m8", "hh"},
+			}
+			nl := []string{"Zex.com,ns1.ex.com,hm.ex.com", "&ex.com,1.2.3.4,ns1.ex.com"}
+			for ci, c := range cand {
+				if ci == 0 && !g.chance(3, 4) || ci > 0 && !g.chance(1, 2) {
+					continue
+				}
+				nl = append(nl, "M"+c.owner+","+c.id)
+				if g.chance(1, 3) {
+					nl = append(nl, "8"+c.owner+","+c.id)
+				}
+				if ci == 0 {
+					for _, nn := range nets {
+						nl = append(nl, "%"+nn.loc+","+nn.cidr+",m1")
+					}
+				} else {
+					nl = append(nl, "%"+c.lo+",0.0.0.0/0,"+c.id, "%"+c.lo+",::/0,"+c.id)
+				}
+			}
+			g.shuffle(nl)
+			var nls []string
+			for _, l := range nl {
+				nls = append(nls, hexTok([]byte(l)))
+			}
+			ccl := cl
+			if len(ccl) > 12 {
+				ccl = ccl[:12]
+			}
+			for _, q := range []string{"ex.com", "svc.ex.com", "www.svc.ex.com", "a.www.svc.ex.com", "b.a.www.svc.ex.com", "x.svc.ex.com",
+				"other.ex.com", "x.other.ex.com", "sv.ex.com", "svcs.ex.com", "com", "example.com", "ex.org"} {
+				if !g.chance(2, 3) {
+					continue
+				}
+				var wire []byte
+				for _, lab := range strings.Split(q, ".") {
+					wire = append(wire, byte(len(lab)))
+					wire = append(wire, lab...)
+				}
+				wire = append(wire, 0)
+				fmt.Fprintf(w, "locq %s %s %s\n", strings.Join(nls, ";"), strings.Join(ccl, ";"), hexTok(wire))
+			}
+		}
 	}
 }
 
@@ -485,7 +532,7 @@ func ipAdd(ip net.IP, d int) net.IP {
 
 // locRun: op `loc <lines> <clients>`: Reader.FindLocation for qname ex.com on every backend.
 func locRun(f []string) (string, string) {
-	if len(f) != 3 {
+	if !(f[0] == "loc" && len(f) == 3 || f[0] == "locq" && len(f) == 4) {
 		return "bad-op", "-"
 	}
 	var lines []string
@@ -495,6 +542,21 @@ func locRun(f []string) (string, string) {
 	handlers, errs, dir := compileAll(lines, &stats.DummyStats{}, &dnsserver.DummyLogger{}, dnsserver.CacheConfig{}, backendNames)
 	defer closeAll(handlers, dir)
 	qname := []byte("\x02ex\x03com\x00")
+	qtext := "ex.com."
+	if f[0] == "locq" {
+		// `locq <lines> <clients> <qname>`: the same for another query name (packed, lower case)
+		qname = unhexTok(f[3])
+		qtext = ""
+		for i := 0; i < len(qname) && qname[i] != 0; i += 1 + int(qname[i]) {
+			if i+1+int(qname[i]) > len(qname) {
+				return "bad-op", "-"
+			}
+			qtext += string(qname[i+1:i+1+int(qname[i])]) + "."
+		}
+		if qtext == "" {
+			qtext = "."
+		}
+	}
 	res := map[string][]string{}
 	var out []string
 	for _, b := range backendNames {
@@ -510,7 +572,7 @@ func locRun(f []string) (string, string) {
 		}
 		for _, c := range strings.Split(f[2], ";") {
 			m := new(dns.Msg)
-			m.SetQuestion("ex.com.", dns.TypeA)
+			m.SetQuestion(qtext, dns.TypeA)
 			ip := "198.51.100.7"
 			if c[0] == 'r' {
 				ip = net.IP(unhexTok(c[1:])).String()
